@@ -202,7 +202,7 @@ def mc_universe(thorough=False):
             seg(fld('m'), '.', fld('n')), seg(fld('m'), '.', fld('p', conv('path')))]
     if thorough:
         segs += [seg(fld('k'), '-', fld('n')), seg(fld('m', INT), '.', fld('x'))]
-    ps = ['a', '', '7', 'q', 'u.v', '7.q', '1-2.3' if thorough else 'b']
+    ps = ['a', '', '7', 'q', 'u.v'] + (['7.q', '1-2.3'] if thorough else [])
     return Universe(segs), ps
 
 
@@ -283,11 +283,11 @@ class Pair:
         except Exception as ex:  # noqa  not the documented 4-tuple
             return 'exc', 0, [], [], 'malformed result %r: %r' % (got, ex)
 
-    def find(self, segs):
+    def find(self, segs, shadow=True):
         path = '/' + '/'.join(segs)
         self.log.append(['find', list(segs)])
         out, res, tmpl, params, x = self._find(self.main, path)
-        sout, sres, stmpl, sparams, sx = self._find(self.shadow, path)
+        sout, sres, stmpl, sparams, sx = self._find(self.shadow, path) if shadow else ('', 0, [], [], '')
         return {'op': 'find', 't': [], 'r': 0, 'c': False, 'out': out, 'sout': sout, 'p': [list(s) for s in segs],
                 'res': res, 'tmpl': tmpl, 'params': params, 'sres': sres, 'stmpl': stmpl, 'sparams': sparams,
                 'x': x or sx}
@@ -301,18 +301,6 @@ def siblings_nontrivial(accepted_tps, hit_tmpl):
     if not hit_tmpl or hit_tmpl == [0]:
         return len(kids([])) >= 2
     return any(len(kids(hit_tmpl[:k])) >= 2 for k in range(len(hit_tmpl)))
-
-
-def f1_signature(pair_rejected, u):
-    """Structural signature of DESIGN 6/F1: the history contains a rejected add whose template has a path
-    field that is not the whole final segment, below at least one other segment (the nodes made for the
-    segments above it are left in the tree)."""
-    for tp in pair_rejected:
-        for i, sid in enumerate(tp):
-            s = u.ts[sid - 1]
-            if i > 0 and has_path(s) and (seg_kind(s) == 'cx' or i < len(tp) - 1):
-                return {'defect': 'rejected-add-leaves-nodes', 'rejected_template': 'path-field-not-final-after-other-segments'}
-    return None
 
 
 def same_obs(ev, want):
@@ -352,12 +340,11 @@ class Replayer:
         self.lookups = 0
 
     def report(self, clause, pair, case, what):
-        sig = f1_signature(pair.rejected, self.u) if clause == 'P:reject-noop' else None
         case = dict(case, **replay_info(pair))
         if clause.startswith('D:'):
             self.ctx.detail(clause, case, what)
         else:
-            self.ctx.violation(clause, case, what, signature=sig)
+            self.ctx.violation(clause, case, what)
 
     def add(self, pair, tp, r, c, want_ok, case):
         """returns True if the history can be continued"""
@@ -376,13 +363,15 @@ class Replayer:
         return True
 
     def find(self, pair, segs, want, case):
-        ev = pair.find(segs)
+        ev = pair.find(segs, shadow=False)
         self.lookups += 1
         clause = same_obs(ev, want) if ev['out'] != 'exc' else 'P:internal-error'
         if clause == 'ok':
             return True
-        if ev['sout'] != 'exc' and same_obs(shadow_view(ev), want) == 'ok':
-            clause = 'P:reject-noop'
+        pair.log.pop()
+        ev = pair.find(segs)          # disagreement: ask the shadow router too, to classify it
+        if pair.after_reject and ev['sout'] != 'exc' and same_obs(shadow_view(ev), want) == 'ok':
+            clause = 'P:reject-noop'      # only the router that saw the rejected add(s) is wrong
         self.report(clause, pair, case, 'find(%r): got %s, specification %s %s'
                     % ('/' + '/'.join(segs), {k: ev[k] for k in ('out', 'res', 'tmpl', 'params')},
                        {k: want[k] for k in ('out', 'res', 'tmpl', 'params')}, ev['x']))
@@ -664,9 +653,7 @@ def judge_traces(ctx, u, items, workers):
         if clause.startswith('D:'):
             ctx.detail(clause, case, what)
         else:
-            rejected = [e['t'] for e in evs[:at] if e['op'] == 'add' and e['out'] != 'ok']
-            ctx.violation(clause, case, what,
-                          signature=f1_signature(rejected, u) if clause == 'P:reject-noop' else None)
+            ctx.violation(clause, case, what)
 
 
 def run(ctx):
@@ -684,22 +671,28 @@ def run(ctx):
                        'path segments contain no newline, backslash or braces',
                        'field names, converter names and white space decide validity as in the code (D-clause)',
                        'resources expose on_get only; suffix/method-map handling of add_route is not exercised']
-    W = 4 if ctx.quick else 8
+    W = int(os.environ.get('VERIF_TLC_WORKERS', '0')) or ctx.pick(8, 12)
 
     # ---- leg M: the design, exhaustively --------------------------------------------------------
     u, ps = mc_universe(False)
     upath = u.write(os.path.join(ctx.scratch, 'mc_universe.json'), ps)
     env = {'ROUTER_UNIVERSE': upath}
-    r = ctx.tlc('MC_Router', 'MC_Router.cfg', coverage=True, env=env, workers=W, timeout=1500)
-    ctx.require_coverage(r, ['XAccept', 'XRejectInvalid', 'XRejectConflict', 'XRejectPathNotLast', 'XFind'])
+    acts = ['XAccept', 'XRejectInvalid', 'XRejectConflict', 'XRejectPathNotLast', 'XFind']
+    r = ctx.tlc('MC_Router', 'MC_Router.cfg', env=env, workers=W, timeout=1500)
+    # vacuity guard: the same state graph with -coverage (Paths only feeds the invariants, so the
+    # instance with paths of one segment has the same states and is cheap under TLC's cost accounting)
+    rc = ctx.tlc('MC_Router', 'MC_RouterCov.cfg', coverage=True, env=env, workers=min(W, 4), timeout=1500, count=False)
+    ctx.require_coverage(rc, acts)
+    if rc.distinct != r.distinct:
+        raise MachineryError('coverage instance has %d states, checked instance %d' % (rc.distinct, r.distinct))
+    ctx.extra['action_coverage'] = {a: rc.coverage[a][1] for a in acts}
     tables = load_tables(r.json)
     if not tables:
         raise MachineryError('MC_Router printed no decision table')
     ctx.extra['decision_table_states'] = len(tables)
     ctx.progress('leg M: %d states, %d table states' % (r.distinct, len(tables)))
     if not ctx.quick:
-        r3 = ctx.tlc('MC_Router', 'MC_RouterT.cfg', coverage=True, env=env, workers=W, timeout=3000)
-        ctx.require_coverage(r3, ['XAccept', 'XRejectInvalid', 'XRejectConflict', 'XRejectPathNotLast', 'XFind'])
+        r3 = ctx.tlc('MC_Router', 'MC_RouterT.cfg', env=env, workers=W, timeout=3000)
         ctx.progress('leg M (3 adds): %d states' % r3.distinct)
     # vacuity: each wrong-design switch must break its invariant
     for cfg, inv in (('MC_RouterBadRollback.cfg', 'RejectIsNoOp'), ('MC_RouterBadReset.cfg', 'FindIsIdealDFS')):
@@ -716,7 +709,7 @@ def run(ctx):
     moves = [(tp, c) for tp in tps for c in (False, True)]
     P2, P3 = all_paths(ps, 2), all_paths(ps, 3)
     P3only = P3[len(P2):]
-    nsample = ctx.pick(30, 140)
+    nsample = ctx.pick(15, 60)
     n = 0
     for m1 in moves:
         for m2 in moves:
@@ -736,7 +729,7 @@ def run(ctx):
     # ---- leg A2: simulated add/find histories of a larger universe --------------------------------
     us, pss = sim_universe()
     uspath = us.write(os.path.join(ctx.scratch, 'sim_universe.json'), pss)
-    rs = ctx.tlc('MC_Router', 'MC_RouterSim.cfg', simulate={'num': ctx.pick(60, 1200)}, depth=12, seed=ctx.seed + 1,
+    rs = ctx.tlc('MC_Router', 'MC_RouterSim.cfg', simulate={'num': ctx.pick(40, 1000)}, depth=12, seed=ctx.seed + 1,
                  workers=4, env={'ROUTER_UNIVERSE': uspath}, timeout=1500, count=False)
     behaviours = {digest(b): b for b in rs.json}
     rps = Replayer(ctx, us)
